@@ -1,7 +1,7 @@
 (* C15 — executable instantiation used by the correspondence check (depends on Model.v only). *)
 From Coq Require Import List Arith NArith Bool.
 Import ListNotations.
-From Verif.C15 Require Import Model.
+From Verif.C15 Require Export Model.
 
 (* helpers so that the harness can print programs compactly *)
 Fixpoint mk (l : list instr) : code := match l with [] => CNil | i :: r => CCons i (mk r) end.
